@@ -238,7 +238,7 @@ Qed.
 (* record of the defect fixed by 3d79e01: without the descendant hash check a block whose descendant content differs
    from its hash was accepted *)
 Definition forged_desc_ctx : vctx :=
-  mkC 100 true true (Some 5) true (Some (2001, 5)) (Some 7) (Some 2) 8 false (Some 3001) 9 0
+  mkC 100 true true (Some 5) true (Some (2001, 5)) (Some 7) (Some 2) true 8 false (Some 3001) 9 0
       0 0 0 None true 0 (Some (4001, 4002)).
 Definition forged_desc_blk : vblk :=
   mkV 1 100 T_CONTRACT_RECEIVE 4001 4001 2001 6 2500 8 2 0 (Some 0) 0 3001
@@ -250,4 +250,50 @@ Lemma descendant_hash_refuted :
 Proof.
   split; [vm_compute; reflexivity|]. split; [|vm_compute; reflexivity].
   eexists. split; [left; reflexivity|]. cbn. discriminate.
+Qed.
+
+(* ================================================================ "a receive references a ... SEND" *)
+(* an accepted receive block has a zero ToAddress (amounts()) ... *)
+Lemma accepted_receive_zero_to c b : accept c b = true -> is_send_t (v_type b) = false -> v_to b = 0.
+Proof.
+  unfold accept. rewrite Z.eqb_eq. unfold apply_block, apply_block_gen. intros H S. apply first_err_zero in H.
+  repeat match goal with H : Forall _ (_ :: _) |- _ => inversion H; clear H; subst end.
+  match goal with H : verify_block c b = 0 |- _ => unfold verify_block in H; apply first_err_zero in H end.
+  repeat match goal with H : Forall _ (_ :: _) |- _ => inversion H; clear H; subst end.
+  match goal with H : ck_amounts _ _ _ _ _ = 0 |- _ => rename H into Ham end.
+  unfold ck_amounts in Ham. rewrite S in Ham.
+  destruct (match v_amount b with Some v => negb (v =? 0) | None => false end); [discriminate Ham|].
+  destruct (negb (v_zts b =? 0)); [discriminate Ham|].
+  destruct (negb (v_to b =? 0)) eqn:T; [discriminate Ham|].
+  apply negb_false_iff in T. apply Z.eqb_eq in T. exact T.
+Qed.
+(* ... so on a ledger made of accepted blocks (and genesis blocks) a block that is not a send has a zero ToAddress: *)
+Definition ledger_wf (c : vctx) : Prop := c_from_is_send c = false -> forall to, c_from_to c = Some to -> to = 0.
+
+(* from the enforcement height on the referenced block is a send block (nobody holds a key of the zero address) *)
+Theorem receive_references_send_partial c b :
+  accept c b = true -> is_send_t (v_type b) = false -> ledger_wf c ->
+  c_enf_height c <= c_frontier_height c -> v_addr b <> 0 -> c_from_is_send c = true.
+Proof.
+  intros A S W ENF NZ. destruct (c_from_is_send c) eqn:I; [reflexivity|]. exfalso.
+  destruct (val_recv _ _ (accept_sound _ _ A) S) as [_ [to [F [T _]]]].
+  specialize (T ENF). pose proof (W I to F) as Z0. congruence.
+Qed.
+
+(* finding (legacy regime only): below the enforcement height fromHash() accepts a user receive whose FromBlockHash is
+   the hash of a confirmed block that is NOT a send block (e.g. the account's own previous receive block): that block's
+   ToAddress is zero, which is a "receiver mismatch" tolerated below the enforcement height, and the account has not
+   "received" it yet *)
+Definition legacy_nonsend_ctx : vctx :=
+  mkC 100 true true (Some 5) true (Some (2001, 5)) (Some 7) (Some 0) false 8 false None 9 10109240
+      1000000000000 0 0 (Some 21000) true 500 None.
+Definition legacy_nonsend_blk : vblk :=
+  mkV 1 100 T_USER_RECEIVE 4000 4000 2001 6 2500 9 101 0 (Some 0) 0 2001 [] 21000 0 false 0 32 64 true 101.
+Lemma legacy_receive_of_non_send_refuted :
+  accept legacy_nonsend_ctx legacy_nonsend_blk = true /\ v_type legacy_nonsend_blk = T_USER_RECEIVE /\
+  ledger_wf legacy_nonsend_ctx /\ c_from_is_send legacy_nonsend_ctx = false /\
+  c_frontier_height legacy_nonsend_ctx < c_enf_height legacy_nonsend_ctx.
+Proof.
+  split; [vm_compute; reflexivity|]. split; [reflexivity|]. split; [|split; [reflexivity | vm_compute; reflexivity]].
+  intros _ to F. cbn in F. inversion F. reflexivity.
 Qed.
